@@ -68,20 +68,20 @@ type override struct {
 }
 
 type Engine struct {
-	Prog      *ssa.Program
-	Pkgs      []*packages.Package
-	ModPath   string
-	cfg       Config
-	overrides map[string]*override
-	noopPkgs  map[string]bool
-	allowPkgs map[string]bool
-	pbPkgs    map[string]bool
-	mu        sync.Mutex
-	opaqueTys map[string]types.Type
-	rootFn    *ssa.Function
-	fnInfos   sync.Map
+	Prog                                     *ssa.Program
+	Pkgs                                     []*packages.Package
+	ModPath                                  string
+	cfg                                      Config
+	overrides                                map[string]*override
+	noopPkgs                                 map[string]bool
+	allowPkgs                                map[string]bool
+	pbPkgs                                   map[string]bool
+	mu                                       sync.Mutex
+	opaqueTys                                map[string]types.Type
+	rootFn                                   *ssa.Function
+	fnInfos                                  sync.Map
 	sklValueField, sklKeyField, sklListField int
-	LoadTime  time.Duration
+	LoadTime                                 time.Duration
 }
 
 // Load type-checks and builds SSA for the module in dir with the given overlay (virtual
@@ -343,7 +343,7 @@ type explorer struct {
 	active  int
 	rep     *Report
 	stop    bool
-	violKey map[string]bool
+	violKey map[string]*Violation
 }
 
 func (e *Engine) Explore(fn *ssa.Function, cfg Config) *Report {
@@ -352,7 +352,7 @@ func (e *Engine) Explore(fn *ssa.Function, cfg Config) *Report {
 	e.rootFn = fn
 	t0 := time.Now()
 	x := &explorer{e: e, fn: fn, rep: &Report{Harness: fn.String(), Covers: map[string]int{}, Funcs: map[string]int{}, Stubs: map[string]int{}, Params: cfg.Params},
-		violKey: map[string]bool{}}
+		violKey: map[string]*Violation{}}
 	x.cond = sync.NewCond(&x.mu)
 	x.stack = []workItem{{cfg.Prefix}}
 	var wg sync.WaitGroup
@@ -431,6 +431,29 @@ type runResult struct {
 	solverOK bool
 }
 
+func sameSchedule(first, v *Violation) bool {
+	eq := func(a, b []string) bool {
+		if len(a) != len(b) {
+			return false
+		}
+		for i := range a {
+			if a[i] != b[i] {
+				return false
+			}
+		}
+		return true
+	}
+	if eq(first.Schedule, v.Schedule) {
+		return true
+	}
+	for _, a := range first.Alternates {
+		if eq(a.Schedule, v.Schedule) {
+			return true
+		}
+	}
+	return false
+}
+
 func (x *explorer) merge(res *runResult) {
 	rep := x.rep
 	rep.Runs++
@@ -507,9 +530,14 @@ func (x *explorer) merge(res *runResult) {
 			v.Choices[c.Name] = c.Val
 		}
 		key := v.Kind + "|" + v.Label + "|" + strings.Join(v.Findings, ",")
-		if !x.violKey[key] {
-			x.violKey[key] = true
+		if first := x.violKey[key]; first == nil {
+			x.violKey[key] = v
 			rep.Violations = append(rep.Violations, v)
+		} else if len(v.Schedule) > 0 && len(first.Alternates) < 8 && !sameSchedule(first, v) {
+			// other schedules reaching the same failed assertion: the driver replays them when the
+			// first one does not reproduce natively (not every interleaving of steps between two
+			// gates can be forced on the real build)
+			first.Alternates = append(first.Alternates, v)
 		}
 		if len(rep.Violations) >= x.e.cfg.MaxViolations {
 			x.stop = true
